@@ -11,8 +11,11 @@ Abstract input (JSON, numbers as exact rational strings):
      "annotations": [{"clip": id, "tags": [tag id, ...],
                       "events": [{"id": n, "geom": ... | null, "tags": [tag id, ...]}, ...]}, ...]}
 
-The harness resolves a tag id to the encoder's answer (its position in the vocabulary or
-null) and tells the model the float32 value `prediction_encoding` stores for every score.
+`to_model` / `enc` / `multilabel_clip_score` below are the first-generation model request (a tag resolved to its
+position in the vocabulary by the harness, the multilabel clip score recomputed with the library's own encoder
+functions): they are kept for old replays only.  C08 and C09 send tags as *content* (`tagpool.model_pool`) and let
+the Lean model of the encoder (C19) compute the class indices; the float32 value `prediction_encoding` stores for
+every score is still computed here (`f32`).
 """
 import copy
 import os
@@ -94,18 +97,43 @@ def build(inp):
     """abstract input -> (clip_predictions, clip_annotations, vocabulary tags)
 
     With `inp["tagpool"]` (a list of tag descriptors, see `harness/tagpool.py`) a tag id is a position in
-    that pool and every use builds a new Tag object; without it the eight tags above are used."""
+    that pool and every use builds a new Tag object; without it the eight tags above are used.
+
+    `inp["opts"]` (optional, C09) varies how the same content is handed over: {"tags": "shared"} one Tag object
+    per pool position within this call instead of a new one per use; {"score": "np64" | "np32" | "int"} the
+    predicted scores as numpy scalars / Python ints where integral ("np32": the float32 value of the score);
+    {"seq": "tuple"} tag / sound event sequences as tuples."""
     from soundevent import data
     rec = _base()["rec"]
     ses = {}
+    opts = inp.get("opts") or {}
     if inp.get("tagpool") is not None:
         from . import tagpool
         descs = inp["tagpool"]
+        if opts.get("tags") == "shared":
+            memo = {}
 
-        def tag(t):
-            return tagpool.fresh(descs[t])
+            def tag(t):
+                if t not in memo:
+                    memo[t] = tagpool.fresh(descs[t])
+                return memo[t]
+        else:
+            def tag(t):
+                return tagpool.fresh(descs[t])
     else:
         tag = globals()["tag"]
+    seq = tuple if opts.get("seq") == "tuple" else list
+    how = opts.get("score")
+
+    def score(s):
+        v = float(frac(s))
+        if how == "np64":
+            return np.float64(v)
+        if how == "np32":
+            return np.float32(v)
+        if how == "int" and v == int(v):
+            return int(v)
+        return v
 
     def sound_event(ev):
         key = (ev["id"], gkey(ev["geom"]))
@@ -114,20 +142,20 @@ def build(inp):
         return ses[key]
 
     def ptags(ts):
-        return [data.PredictedTag(tag=tag(t), score=float(frac(s))) for t, s in ts]
+        return seq(data.PredictedTag(tag=tag(t), score=score(s)) for t, s in ts)
 
     preds, anns = [], []
     for c in inp["predictions"]:
         preds.append(data.ClipPrediction(
             clip=clip(c["clip"]), tags=ptags(c.get("tags", [])),
-            sound_events=[data.SoundEventPrediction(sound_event=sound_event(e), tags=ptags(e["tags"]),
-                                                    score=float(frac(e["conf"])) if "conf" in e else 1.0)
-                          for e in c.get("events", [])]))
+            sound_events=seq(data.SoundEventPrediction(sound_event=sound_event(e), tags=ptags(e["tags"]),
+                                                       score=float(frac(e["conf"])) if "conf" in e else 1.0)
+                             for e in c.get("events", []))))
     for c in inp["annotations"]:
         anns.append(data.ClipAnnotation(
-            clip=clip(c["clip"]), tags=[tag(t) for t in c.get("tags", [])],
-            sound_events=[data.SoundEventAnnotation(sound_event=sound_event(e), tags=[tag(t) for t in e["tags"]])
-                          for e in c.get("events", [])]))
+            clip=clip(c["clip"]), tags=seq(tag(t) for t in c.get("tags", [])),
+            sound_events=seq(data.SoundEventAnnotation(sound_event=sound_event(e), tags=seq(tag(t) for t in e["tags"]))
+                             for e in c.get("events", []))))
     return preds, anns, [tag(t) for t in inp["vocab"]]
 
 
@@ -136,11 +164,22 @@ def task_fn(name):
     return getattr(evaluation, name)
 
 
-def run_task(inp):
-    preds, anns, tags = build(inp)
+def call_task(task, preds, anns, tags, opts=None):
+    """the task function on live objects; {"call": "positional"}: arguments in the documented order;
+    {"seq": "tuple"}: the three sequences as tuples"""
+    opts = opts or {}
+    if opts.get("seq") == "tuple":
+        preds, anns, tags = tuple(preds), tuple(anns), tuple(tags)
     with warnings.catch_warnings():
         warnings.simplefilter("ignore")
-        return task_fn(inp["task"])(clip_predictions=preds, clip_annotations=anns, tags=tags)
+        if opts.get("call") == "positional":
+            return task_fn(task)(preds, anns, tags)
+        return task_fn(task)(clip_predictions=preds, clip_annotations=anns, tags=tags)
+
+
+def run_task(inp):
+    preds, anns, tags = build(inp)
+    return call_task(inp["task"], preds, anns, tags, inp.get("opts"))
 
 
 def _num(x):
@@ -177,10 +216,19 @@ def canon_evaluation(ev):
 
 
 # ------------------------------------------------------------------ model request
+_F32 = {}
+
+
 def f32(s):
     """the value a float32 array stores for the score (exact rational string)"""
-    with np.errstate(all="ignore"):
-        return rat(float(np.float32(float(frac(s)))))
+    v = _F32.get(s)
+    if v is None:
+        with np.errstate(all="ignore"):
+            v = rat(float(np.float32(float(frac(s)))))
+        if len(_F32) > 50000:
+            _F32.clear()
+        _F32[s] = v
+    return v
 
 
 def enc(vocab, t):
@@ -288,6 +336,8 @@ def num_eq(impl, model, mode):
         return a == q
     if mode == "round-once":
         return float(q) == float(a)
+    if mode == "loose":      # behind float32 logarithms / exp (the multilabel clip score)
+        return abs(float(a) - float(q)) <= 2.0 ** -18
     return abs(float(a) - float(q)) <= 2.0 ** -40 * max(1.0, abs(float(q)))
 
 
